@@ -142,16 +142,20 @@ func (sc *c18Scenario) Signature(res *simrt.Result) string {
 }
 
 type c18Stub struct {
-	id    int
-	log   *[]string
-	depth *int
-	seen  *http.Header
-	fail  *error // non-nil target: the network fails with it (as long as it is set)
-	redir *int   // > 0: answer with a redirect (and count down)
+	id     int
+	log    *[]string
+	depth  *int
+	seen   *http.Header
+	fail   *error // non-nil target: the network fails with it (as long as it is set)
+	redir  *int   // > 0: answer with a redirect (and count down)
+	tagged *[]string
 }
 
 func (st *c18Stub) RoundTrip(req *http.Request) (*http.Response, error) {
 	*st.log = append(*st.log, fmt.Sprintf("transport%d", st.id))
+	if q := req.URL.RawQuery; q != "" && st.tagged != nil {
+		*st.tagged = append(*st.tagged, q+":transport")
+	}
 	*st.seen = req.Header.Clone()
 	if req.Body != nil {
 		io.Copy(io.Discard, req.Body)
@@ -178,6 +182,8 @@ func (sc *c18Scenario) Run(s *simrt.Sim) {
 	var netErr error
 	redirects := 0
 	calls := 0
+	panicAtCall := -1
+	var tagged []string // "<raw query>:<entry>" for requests that carry a query (concurrent phase)
 	var cancelMid func()
 	errs := make([]error, sc.NIcs)
 	ics := make([]*network.Interceptor, sc.NIcs)
@@ -194,11 +200,18 @@ func (sc *c18Scenario) Run(s *simrt.Sim) {
 				panic("interceptor chain recursion")
 			}
 			log = append(log, fmt.Sprintf("ic%d", i))
+			if q := req.URL.RawQuery; q != "" {
+				tagged = append(tagged, fmt.Sprintf("%s:ic%d", q, i))
+				s.Yield() // lets a concurrent request of another goroutine interleave with this chain
+			}
 			req.Header.Add(fmt.Sprintf("X-Ic-%d", i), "set")
 			my := calls
 			calls++
 			if my == 0 && cancelMid != nil {
 				cancelMid()
+			}
+			if my == panicAtCall {
+				panic("interceptor-boom")
 			}
 			if my == failAt {
 				return errs[i]
@@ -216,11 +229,11 @@ func (sc *c18Scenario) Run(s *simrt.Sim) {
 	// clients: client 0 may have a nil Transport (then http.DefaultTransport is the stub for this run)
 	clients := make([]*http.Client, sc.NCli)
 	for k := range clients {
-		clients[k] = &http.Client{Transport: &c18Stub{id: k, log: &log, depth: &depth, seen: &seen, fail: &netErr, redir: &redirects}}
+		clients[k] = &http.Client{Transport: &c18Stub{id: k, log: &log, depth: &depth, seen: &seen, fail: &netErr, redir: &redirects, tagged: &tagged}}
 	}
 	if sc.NilTr {
 		saved := http.DefaultTransport
-		http.DefaultTransport = &c18Stub{id: 0, log: &log, depth: &depth, seen: &seen, fail: &netErr, redir: &redirects}
+		http.DefaultTransport = &c18Stub{id: 0, log: &log, depth: &depth, seen: &seen, fail: &netErr, redir: &redirects, tagged: &tagged}
 		defer func() { http.DefaultTransport = saved }()
 		clients[0] = &http.Client{}
 	}
@@ -256,7 +269,7 @@ func (sc *c18Scenario) Run(s *simrt.Sim) {
 		apis = append(apis, network.NewSimpleAPIWithSimpleHTTP("http://c18.example.test", sh2))
 		models = append(models, nil)
 	} else if sc.Twin {
-		twinClient := &http.Client{Transport: &c18Stub{id: 50, log: &log, depth: &depth, seen: &seen, fail: &netErr, redir: &redirects}}
+		twinClient := &http.Client{Transport: &c18Stub{id: 50, log: &log, depth: &depth, seen: &seen, fail: &netErr, redir: &redirects, tagged: &tagged}}
 		sh2 := network.NewSimpleHTTPWithClientAndInterceptors(twinClient, initial...)
 		shs = append(shs, sh2)
 		apis = append(apis, network.NewSimpleAPIWithSimpleHTTP("http://c18.example.test", sh2))
@@ -394,7 +407,7 @@ func (sc *c18Scenario) Run(s *simrt.Sim) {
 			c := clients[st.Cli]
 			nid := 100 + si
 			h.Do("main", "SwapTransport+SetHTTPClient", st.Cli, func() (interface{}, error) {
-				c.Transport = &c18Stub{id: nid, log: &log, depth: &depth, seen: &seen, fail: &netErr, redir: &redirects}
+				c.Transport = &c18Stub{id: nid, log: &log, depth: &depth, seen: &seen, fail: &netErr, redir: &redirects, tagged: &tagged}
 				sh.SetHTTPClient(c)
 				return nil, nil
 			})
@@ -544,6 +557,82 @@ func (sc *c18Scenario) Run(s *simrt.Sim) {
 				}
 			}
 			failAt = -1
+			// fault: the first interceptor panics while handling a request and the caller recovers; the SimpleHTTP
+			// is unharmed: the next request runs the whole chain again
+			if len(model) > 0 && (st.Verb == "Get" || st.Verb == "Post" || st.Verb == "API") {
+				log, calls, panicAtCall = nil, 0, 0
+				func() {
+					defer func() { recover() }()
+					switch st.Verb {
+					case "Post":
+						sh.Post("http://c18.example.test/x", "application/json", bytes.NewReader([]byte(`{}`)))
+					default:
+						sh.Get("http://c18.example.test/x")
+					}
+				}()
+				panicAtCall = -1
+				log, seen, calls = nil, nil, 0
+				op, rerr := doReq(st.Verb)
+				if op.Panic != "" {
+					return
+				}
+				var want []string
+				for _, i := range model {
+					want = append(want, fmt.Sprintf("ic%d", i))
+				}
+				want = append(want, "transport")
+				var got []string
+				for _, e := range log {
+					if strings.HasPrefix(e, "transport") {
+						e = "transport"
+					}
+					got = append(got, e)
+				}
+				sc.probes["request-after-a-panicking-interceptor"]++
+				if fmt.Sprint(got) != fmt.Sprint(want) || rerr != nil {
+					add("chain", "chain-after-a-recovered-interceptor-panic", fmt.Sprintf("step %d %s: the previous request's first interceptor panicked (the caller recovered); this request's call log is %v (Err=%v), want %v", si, st.Verb, log, rerr, want))
+				}
+			}
+		}
+	}
+	// two goroutines issue a request each at the same time through the (last used) instance: every request runs
+	// the chain for itself
+	if len(model) > 0 {
+		tagged = nil
+		failAt, calls = -1, 0
+		var ths []*simrt.Thread
+		for k := 1; k <= 2; k++ {
+			k := k
+			name := fmt.Sprintf("requester%d", k)
+			ths = append(ths, s.Go(name, func() {
+				h.Do(name, "Get", k, func() (interface{}, error) {
+					r := sh.Get(fmt.Sprintf("http://c18.example.test/x?t=%d", k))
+					if r != nil {
+						return nil, r.Err
+					}
+					return nil, nil
+				})
+			}))
+		}
+		if !s.WaitUntilTimeout(allDone(ths), 5*time.Minute) {
+			add("hang", "concurrent-requests-did-not-finish", "two concurrent requests through one SimpleHTTP did not finish")
+			return
+		}
+		sc.probes["two-concurrent-requests"]++
+		for k := 1; k <= 2; k++ {
+			var want, got []string
+			for _, i := range model {
+				want = append(want, fmt.Sprintf("t=%d:ic%d", k, i))
+			}
+			want = append(want, fmt.Sprintf("t=%d:transport", k))
+			for _, e := range tagged {
+				if strings.HasPrefix(e, fmt.Sprintf("t=%d:", k)) {
+					got = append(got, e)
+				}
+			}
+			if fmt.Sprint(got) != fmt.Sprint(want) {
+				add("chain", "chain-of-a-concurrent-request", fmt.Sprintf("two goroutines issued a request each at the same time: request %d saw %v, want %v (all entries: %v)", k, got, want, tagged))
+			}
 		}
 	}
 }
